@@ -644,6 +644,7 @@ func check(id, tier string, workers int, wallOverride float64) int {
 	sort.SliceStable(viols, func(i, j int) bool { return len(viols[i].Choices) < len(viols[j].Choices) })
 	for _, v := range viols {
 		if !v.Stable {
+			fmt.Fprintf(os.Stderr, "vcheck: not reproducible in-process (machinery defect, not reported as a violation): run=%d clause=%s %s\n", v.Run, v.Clause, v.Msg)
 			continue
 		}
 		rf := ReplayFile{Property: id, World: v.World, Seed: v.Seed, Run: v.Run, Clause: v.Clause, Msg: v.Msg, Summary: v.Summary, Choices: v.Choices, Trace: v.Trace, RepoRev: repoRev(),
